@@ -6,6 +6,7 @@ import (
 	"fmt"
 	"os"
 	"path/filepath"
+	"strings"
 	"time"
 
 	ccpb "github.com/google/go-tdx-guest/proto/checkconfig"
@@ -137,6 +138,14 @@ func c02CertDevs() []certDev {
 		{"wrong-cn", true, func(p *world.PKI, pos int) []*x509.Certificate {
 			return reissue(p, pos, func(s *world.CertSpec, _ **x509.Certificate, _ **world.Key) { s.CN = s.CN + " 2" })
 		}},
+		{"cn-other-capitalisation", true, func(p *world.PKI, pos int) []*x509.Certificate {
+			return reissue(p, pos, func(s *world.CertSpec, _ **x509.Certificate, _ **world.Key) { s.CN = strings.ToUpper(s.CN) })
+		}},
+		{"cn-other-spacing", true, func(p *world.PKI, pos int) []*x509.Certificate {
+			return reissue(p, pos, func(s *world.CertSpec, _ **x509.Certificate, _ **world.Key) {
+				s.CN = " " + strings.Replace(s.CN, " ", "  ", 1)
+			})
+		}},
 		{"cn-of-other-role", true, func(p *world.PKI, pos int) []*x509.Certificate {
 			return reissue(p, pos, func(s *world.CertSpec, _ **x509.Certificate, _ **world.Key) {
 				s.CN = []string{world.CNTcb, world.CNProcessor, world.CNPlatform}[pos]
@@ -156,6 +165,23 @@ func c02CertDevs() []certDev {
 		}},
 		{"no-sgx-extension", false, func(p *world.PKI, pos int) []*x509.Certificate {
 			return reissue(p, pos, func(s *world.CertSpec, _ **x509.Certificate, _ **world.Key) { s.NoSGXExt = true })
+		}},
+		// issued by the right CA under the right name, but restricted by its issuer to an unrelated purpose
+		{"eku-code-signing", true, func(p *world.PKI, pos int) []*x509.Certificate {
+			return reissue(p, pos, func(s *world.CertSpec, _ **x509.Certificate, _ **world.Key) {
+				s.ExtKeyUsage = []x509.ExtKeyUsage{x509.ExtKeyUsageCodeSigning}
+				if pos == 0 {
+					s.NoCRLDP = true // the PCK extension reader insists on exactly six extensions
+				}
+			})
+		}},
+		{"eku-ocsp+timestamping", true, func(p *world.PKI, pos int) []*x509.Certificate {
+			return reissue(p, pos, func(s *world.CertSpec, _ **x509.Certificate, _ **world.Key) {
+				s.ExtKeyUsage = []x509.ExtKeyUsage{x509.ExtKeyUsageOCSPSigning, x509.ExtKeyUsageTimeStamping}
+				if pos == 0 {
+					s.NoCRLDP = true
+				}
+			})
 		}},
 		// outside its validity period at the verification time: a validity error must not stand in for the
 		// (missing) link to the trusted roots, so the trust condition is judged as usual
